@@ -54,7 +54,7 @@ LEGS = [
     # crash points inside the multi-step file operations (rollover, cross-segment truncate, clear, trim, close,
     # index write): directory copies taken from hooks inside the calls, a WAL reopened on every distinct copy and
     # judged against the list (spec verdicts only, no model)
-    {"name": "walcrash", "harness": "wal", "model": None, "n_quick": 70, "n_thorough": 20000,
+    {"name": "walcrash", "harness": "wal", "model": None, "n_quick": 70, "n_thorough": 2500,
      "args": ["-mode", "crash"], "corpus": "corpus/wal", "timeout": 900, "timeout_thorough": 3000},
 ]
 REGISTERED = True
